@@ -22,6 +22,8 @@ def check(chk, fx):
         "nonterminals and columns are never confused. Each is a necessary condition: violating it loses or invents "
         "items or lookaheads for some grammar the test-suite does not contain.")
     lr.all_table_rules(chk, fx)
+    from .. import primrules
+    primrules.prims(chk, fx, "GAPI2")         # the grammar the table is built from is the grammar the user wrote
     # a rule's symbols are resolved by name / id: a wrong resolution builds the table for another grammar
     from . import c17
     c17.symbol_lookup(chk, fx)
